@@ -49,9 +49,25 @@ def decaying_specs(draw, tier, d_max=5):
         spec = draw(gen.tt_specs(d_max=d_max, n_max=5, r_max=8 if tier == "quick" else 10, size_max=2048 if tier == "quick" else 8192,
                                  families=("gauss",), rank_families=("uniform", "ragged", "over_ranked")))
         return {"kind": kind, "Y": spec, "decay": draw(st.sampled_from([0.0, 0.3, 1.0, 2.0, 4.0])), "scale10": scale10}
-    spec = draw(gen.tt_specs(d_max=d_max, n_max=5, r_max=6, size_max=2048,
+    spec = draw(gen.tt_specs(d_max=d_max, n_max=5, r_max=6, size_max=2048, int_storage=True,
                              families=("smallint", "float", "gauss", "scaled", "rank_deficient", "explicit")))
     return {"kind": kind, "Y": spec, "scale10": scale10}
+
+
+def as_stored(Y, ttspec, ctx=None):
+    """What the library is given: cores holding integers kept in integer arrays when the spec asks for it (same denoted tensor)."""
+    store = (ttspec or {}).get("store")
+    if not store:
+        return Y
+    if ctx is not None:
+        ctx.label("stored_as:" + store)
+    out = []
+    for k, G in enumerate(Y):
+        if (store != "mixed" or k % 2 == 0) and np.array_equal(G, np.round(G)) and np.abs(G).max(initial=0) < 2 ** 31:
+            out.append(G.astype(np.int64 if store == "mixed" else store))
+        else:
+            out.append(G)
+    return out
 
 
 def build(spec):
@@ -178,7 +194,7 @@ def prop_truncate(case, ctx):
         ctx.label("scale>1e3")
     if 0 < nrm < 1e-3:
         ctx.label("scale<1e-3")
-    Z = ctx.lib(teneva.truncate, Y, e, cap, use_stab=use_stab, is_eigh=is_eigh)
+    Z = ctx.lib(teneva.truncate, as_stored(Y, case["T"].get("Y"), ctx), e, cap, use_stab=use_stab, is_eigh=is_eigh)
     reduced, _ = check_truncation(ctx, Y, Z, e, cap, is_eigh, f"truncate(is_eigh={is_eigh}, use_stab={use_stab})")
     ctx.nontrivial(reduced)
 
@@ -194,7 +210,7 @@ def addmany_cases(draw, tier):
         if draw(st.integers(0, 4)) == 0:
             items.append({"num": draw(gen.numbers)})
         else:
-            items.append({"tt": draw(gen.tt_specs(shape=n, r_max=3, families=("smallint", "float", "gauss", "dyadic"))),
+            items.append({"tt": draw(gen.tt_specs(shape=n, r_max=3, families=("smallint", "float", "gauss", "dyadic"), int_storage=True)),
                           "scale10": draw(st.sampled_from([0, 0, 0, 2, -2, 4]))})
     return {"n": n, "items": items, "log10e": draw(st.floats(-10, -0.3, allow_nan=False)),
             "cap": draw(st.sampled_from([1e12, 1e12, 1e12, 1, 2, 3, 5])), "trunc_freq": draw(st.integers(1, 4))}
@@ -211,7 +227,7 @@ def prop_addmany(case, ctx):
             items.append(it["num"]); dens.append(np.full(n, float(it["num"]))); majs.append(abs(it["num"]) * math.sqrt(np.prod(n)))
         else:
             Y = gen.build_tt(it["tt"]); Y[0] = Y[0] * 10.0 ** it["scale10"]
-            items.append(Y); dens.append(dense(Y)); majs.append(fro(oracle.dense_abs(Y)))
+            items.append(as_stored(Y, it["tt"], ctx)); dens.append(dense(Y)); majs.append(fro(oracle.dense_abs(Y)))
     got = ctx.lib(teneva.add_many, items, e, cap, tf)
     all_num = all(isinstance(x, (int, float)) for x in items)
     ctx.label(f"trunc_freq={tf}", "all_numbers" if all_num else "has_tensor", f"m={len(items)}")
